@@ -243,6 +243,21 @@ def exO : Oracles := default
 example : (runBatch exO exQ [] [[exLine 97, exLine 98], [exLine 99, exLine 100, exLine 101]] (some 3)).totalLines = 3 := by decide
 example : (runBatch exO exQ [] [[exLine 97, exLine 98], [exLine 99, exLine 100, exLine 101]] (some 3)).printed.length = 3 ∧
     (runBatch exO exQ [] [[exLine 97, exLine 98], [exLine 99, exLine 100, exLine 101]] none).printed.length = 5 := by decide
+-- hypotheses of `interrupt_aggregate_table` on a COUNT(*) query interrupted before line 3 of 5: the loop over the
+-- prefix does not fail and the final result exists (one row)
+def exAgg : Query :=
+  { stmt := .aggregate { items := [⟨"count0", .count none false, none⟩], filter := none, groupBy := none, having := none,
+                         havingAggs := [], havingKeys := [], limit := none, distinct := false },
+    table := { name := "t", columns := ["k"] }, join := none }
+example : joinOutcome exAgg [] = .ok [] := rfl
+example : hasFailed (runFiles exO exAgg [] false none
+    (takeLines 3 [[exLine 97, exLine 98], [exLine 99, exLine 100, exLine 101]]) {}).out = false := by decide
+example : (runBatch exO exAgg [] [[exLine 97, exLine 98], [exLine 99, exLine 100, exLine 101]] (some 3)).printed = ["count0: 3"] ∧
+    (runBatch exO exAgg [] [[exLine 97, exLine 98], [exLine 99, exLine 100, exLine 101]] none).printed = ["count0: 5"] := by decide
+-- hypotheses of `interrupt_during_load`: a 25-line joined file, flag cleared before its line 3 → 10 lines loaded
+def exJ : JoinInfo := { joined := { name := "u", columns := ["k"] }, joinerColumn := "k", joinedColumn := "k", isOuter := false }
+example : linesLoaded (loadJoinFileI exJ (some (List.replicate 25 (exLine 97))) (some 3)) = some 10 ∧
+    3 < (List.replicate 25 (exLine 97)).length := by decide
 -- the loader: cleared before line 3 of a 25-line file → 10 lines processed; before line 11 → 20
 example : linesLoaded (loadJoinLoop 0 (some 3) (List.replicate 25 (exLine 97)) 0 []) = some 10 := by decide
 example : linesLoaded (loadJoinLoop 0 (some 11) (List.replicate 25 (exLine 97)) 0 []) = some 20 := by decide
